@@ -196,7 +196,14 @@ func getNalusFromBytestream(f io.Reader) ([][]byte, error) {
 		return nil, err
 	}
 
-	nalus := avc.ExtractNalusFromByteStream(fullRaw)
+	allNalus := avc.ExtractNalusFromByteStream(fullRaw)
+	// Two start codes in a row give an empty NAL unit. Drop these, since the NAL unit header is read below.
+	nalus := make([][]byte, 0, len(allNalus))
+	for _, nalu := range allNalus {
+		if len(nalu) > 0 {
+			nalus = append(nalus, nalu)
+		}
+	}
 	return nalus, nil
 }
 
